@@ -225,6 +225,10 @@ CHECKS['C18']['text'] += ' A tabulated (element, isotope, charge) combination th
 CHECKS['C16']['text'] += (' The multi-stage mode (one_shot = False) is the work-list machine ReactorQueue.tla, model checked for every single-stage relation over three '
                           'molecules, every start mixture and limit (no duplicates, breadth first, complete within polymerise_limit, first level = one-shot, termination; '
                           'three design constants with refuted instances); recorded runs are checked against the closure TLC computes from the recorded single-stage relation.')
+CHECKS['C16']['text'] += (' Two-pattern templates: ReactorQueue2.tla shows with TLC that the work-list (mixtures keyed without the pair that led to them) reports everything reachable '
+                          'when products are larger than their reactants and need not otherwise; recorded two-pattern runs (both reactant orders) are held against the declarative closure inside that domain.')
+CHECKS['C13']['text'] += ' A three-object instance model checks the Union action (coverage statistics showed it was never enabled with two objects).'
+CHECKS['C11']['text'] += ' Also hand-made single-centre drawings (explicit hydrogens at any position) judged against the other program\'s reading; reactions with atom-less components; more than eight labelled atoms; non-ASCII text in indexed files.'
 PENDING = {}
 
 
